@@ -25,5 +25,11 @@ def correspondence(ctx):
             seen.add(k_)
             out["disagreements"].append(f"signature: {a_} :: {b_}"[:300])
             out["failing_inputs"].append({"key": k_, "what": f"{a_}: {b_}"[:400], "code": c05.keyword_replay(ctx.seed, ctx.tier, k_)})
-    out["ok"] = out["ok"] and not seen
+    # the same spellings inside numba-compiled code (subset of the C07 API sweep)
+    from harness import c07
+    ndis, nfails, nexpr = c07.api_subset(ctx, lambda e: ".rotate" in e, "rotate")
+    out["disagreements"] += ndis[:6]
+    out["failing_inputs"] += nfails[:3]
+    out["stats"]["numba_expressions"] = nexpr
+    out["ok"] = out["ok"] and not seen and not ndis
     return out
